@@ -809,6 +809,9 @@ func ruleLexClass(p *Prog, r *Report) {
 			for i := int64(0); i < 24; i++ {
 				all = append(all, int64Val(i))
 			}
+			if done := commentFilterByEvaluation(p, r, rule, rule+":comment-filter:sml.(*parser).peek", p.Pos(fn.Pos())); done {
+				goto filtered
+			}
 			CheckDomain(p, r, DomainSpec{Rule: rule, Key: rule + ":comment-filter:sml.(*parser).peek", Fn: fn,
 				Env:    map[string]Val{"len(p0.tokenQueue)": int64Val(0), "p0.tokenQueue": {K: KSlice, S: "p0.tokenQueue", Len: 0}},
 				Subjs:  []Subj{{Name: "type of the token the lexer returned", Kind: SValue, Pick: pick, Type: typInt, NoReps: true, Extra: all}},
@@ -816,8 +819,53 @@ func ruleLexClass(p *Prog, r *Report) {
 				Accept: func(v []Val) bool { return v[0].I.Int64() != ttComment }})
 		}
 	}
+filtered:
 	commentAfterEveryToken(p, r, rule)
 	tokenPositions(p, r, rule)
+}
+
+// commentFilterByEvaluation: the item parser, fed by the lexer's tokens one
+// at a time (comment tokens included), builds the same nodes with the same
+// diagnostics for an item written with a comment after every token as for
+// the item without comments. Reports done=false when the evaluation does not
+// decide; the guard rule on peek() is used then.
+func commentFilterByEvaluation(p *Prog, r *Report, rule, key, pos string) bool {
+	fn := p.Func("sml", "(*parser).parseDataItem")
+	if fn == nil {
+		return false
+	}
+	plain := []string{"<", "L", "<", "A", "\"x\"", ">", "<", "U1", "1", "2", ">", "<", "BOOLEAN", "T", ">", "<", "L", ">", ">"}
+	with := ""
+	for i, t := range plain {
+		with += t + fmt.Sprintf(" // c%d <A \"no\"> >\n", i)
+	}
+	with = "// first\n" + with
+	run := func(text string) (string, bool) {
+		toks, ok := lexAll(p, "lexMessageText", text, 400)
+		if !ok {
+			return "", false
+		}
+		obs, diags, ok := parseRun(p, fn, toks, 4)
+		if !ok {
+			return "", false
+		}
+		var parts []string
+		for _, o := range obs {
+			parts = append(parts, fmt.Sprintf("%s/%d", o.factory, len(o.elems)))
+		}
+		return strings.Join(parts, " ") + " diagnostics: " + strings.Join(diags, "|"), true
+	}
+	a, okA := run(strings.Join(plain, " "))
+	b, okB := run(with)
+	if !okA || !okB || !strings.Contains(a, "NewListNode/4") {
+		return false
+	}
+	if a != b {
+		r.bad(rule, key, pos, fmt.Sprintf("an item with a comment after every token is parsed differently from the same item without comments: [%s] against [%s]: comment tokens reach the grammar", b, a))
+		return true
+	}
+	r.ok(rule, key, pos, fmt.Sprintf("evaluated with the parser fed one token per call of the lexer's token method, comment tokens included: a list of four items written with a comment line after each of its %d tokens builds the same nodes with the same diagnostics as without comments (%s)", len(plain), a))
+	return true
 }
 
 // tokenPositions: the line and column a token carries (and every diagnostic
@@ -964,11 +1012,16 @@ func ruleErrorsSuppress(p *Prog, r *Report) {
 			r.ok(rule, key, p.Pos(ret.Pos()), "returns no messages")
 			continue
 		}
-		// must be on the 'no errors' side of a test of the error list
-		guarded := false
+		// must be on the 'no errors' side of a test of the error list; a result
+		// selected before a single return is followed edge by edge
+		type guard struct {
+			gb       *ssa.BasicBlock
+			zeroSide int
+		}
+		var guards []guard
 		for _, gb := range fn.Blocks {
 			iff, ok := gb.Instrs[len(gb.Instrs)-1].(*ssa.If)
-			if !ok || !gb.Dominates(b) {
+			if !ok {
 				continue
 			}
 			bo, ok := iff.Cond.(*ssa.BinOp)
@@ -997,15 +1050,44 @@ func ruleErrorsSuppress(p *Prog, r *Report) {
 				zeroSide = 0
 			}
 			if bo.X == ssa.Value(cc) { // 0 < len(x)
+				zeroSide = -1
 				switch bo.Op {
-				case token.LSS:
+				case token.LSS, token.NEQ:
 					zeroSide = 1
-				case token.GEQ:
+				case token.GEQ, token.EQL:
 					zeroSide = 0
 				}
 			}
-			if zeroSide >= 0 && !reaches(gb.Succs[1-zeroSide], b, gb) {
-				guarded = true
+			if zeroSide >= 0 {
+				guards = append(guards, guard{gb, zeroSide})
+			}
+		}
+		blockGuarded := func(blk *ssa.BasicBlock) bool {
+			for _, g := range guards {
+				if g.gb.Dominates(blk) && g.gb != blk && !reaches(g.gb.Succs[1-g.zeroSide], blk, g.gb) {
+					return true
+				}
+			}
+			return false
+		}
+		noErrorsEdge := func(from, to *ssa.BasicBlock) bool {
+			if blockGuarded(from) {
+				return true
+			}
+			for _, g := range guards {
+				if g.gb == from && g.gb.Succs[g.zeroSide] == to && g.gb.Succs[1-g.zeroSide] != to {
+					return true
+				}
+			}
+			return false
+		}
+		guarded := blockGuarded(b)
+		if phi, isPhi := ret.Results[0].(*ssa.Phi); isPhi && !guarded && (phi.Block() == b || phi.Block().Dominates(b)) {
+			guarded = true
+			for i, e := range phi.Edges {
+				if !isFreshEmpty(e) && !noErrorsEdge(phi.Block().Preds[i], phi.Block()) {
+					guarded = false
+				}
 			}
 		}
 		if guarded {
@@ -1020,6 +1102,34 @@ func ruleErrorsSuppress(p *Prog, r *Report) {
 	// diagnostics have the documented form
 	if sf := p.MustFunc(r, "sml", "(*parseError).string"); sf != nil {
 		key := rule + ":sml.(*parseError).string:format"
+		// by evaluation first: the text made for two concrete diagnostics
+		evalOK, evalBad := true, ""
+		for _, d := range []struct {
+			line, col int64
+			text      string
+		}{{12, 345, "expected '<', found \"x\""}, {1, 1, "%d 100% üñí"}} {
+			ein := NewInterp(p)
+			ein.InitBind["p0.line"] = int64Val(d.line)
+			ein.InitBind["p0.col"] = int64Val(d.col)
+			ein.InitBind["p0.text"] = strVal(d.text)
+			out := ein.Run(sf, defaultArgs(sf), nil)
+			rets := out.Frame.ReturnVals()
+			if len(ein.Stuck) > 0 || len(rets) != 1 || len(rets[0]) != 1 || rets[0][0].K != KStr {
+				evalOK = false
+				break
+			}
+			if want := fmt.Sprintf("Ln %d, Col %d: %s", d.line, d.col, d.text); rets[0][0].S != want {
+				evalBad = fmt.Sprintf("the diagnostic (line %d, column %d, %q) is rendered as %q; the documented form is %q", d.line, d.col, d.text, rets[0][0].S, want)
+			}
+		}
+		if evalOK {
+			if evalBad != "" {
+				r.bad(rule, key, p.Pos(sf.Pos()), evalBad)
+			} else {
+				r.ok(rule, key, p.Pos(sf.Pos()), `evaluated on two diagnostics (one whose text holds format verbs): rendered as "Ln <line>, Col <col>: <text>"`)
+			}
+			return
+		}
 		in := NewInterp(p)
 		in.Symbolic = true
 		var format Val
@@ -1282,6 +1392,10 @@ func ruleMsgScope(p *Prog, r *Report) {
 		}
 		if acc {
 			r.ok(rule, key, "", fmt.Sprintf("only ever extended by append or advanced by reslicing (%d stores): a result list or the token stream, not per-message state", len(writes[name])))
+			continue
+		}
+		if fns, ok := privateToTokenSupplier(p, name, fieldPath); ok {
+			r.ok(rule, key, "", fmt.Sprintf("read only inside %s, which take the next token from the lexer: the one-token look-ahead of the token stream, whose effect on the parse is the token handed out, not per-message state", strings.Join(fns, ", ")))
 			continue
 		}
 		if ok, _ := assignedOnAllPaths(name); ok {
@@ -1623,4 +1737,55 @@ func upperCasedByEvaluation(p *Prog, kinds map[int64]string) (detail string, dec
 		return strings.Join(firstN(bad, 2), "; "), true, false
 	}
 	return fmt.Sprintf("evaluated on three lower- and mixed-case messages: all %d stream/function, wait-bit, direction, item-type and boolean tokens are emitted upper-cased", n), true, true
+}
+
+// privateToTokenSupplier: every read of the parser field (or of a part of it)
+// stands in a function that itself calls the lexer's token-returning method.
+func privateToTokenSupplier(p *Prog, name string, fieldPath func(ssa.Value) string) ([]string, bool) {
+	isTokenCall := func(sc *ssa.Function) bool {
+		if sc == nil || sc.Signature.Recv() == nil || sc.Pkg == nil || sc.Pkg.Pkg.Name() != "sml" {
+			return false
+		}
+		res := sc.Signature.Results()
+		if res.Len() != 1 || sc.Signature.Params().Len() != 0 || !strings.Contains(sc.Signature.Recv().Type().String(), "lexer") {
+			return false
+		}
+		nm, ok := res.At(0).Type().(*types.Named)
+		return ok && nm.Obj().Name() == "token"
+	}
+	readers := map[string]bool{}
+	for _, fn := range p.PkgFuncs("sml") {
+		reads, supplies := false, false
+		for _, b := range fn.Blocks {
+			for _, instr := range b.Instrs {
+				switch x := instr.(type) {
+				case *ssa.UnOp:
+					if x.Op == token.MUL {
+						if fp := fieldPath(x.X); fp == name || strings.HasPrefix(fp, name+".") {
+							reads = true
+						}
+					}
+				case ssa.CallInstruction:
+					if isTokenCall(x.Common().StaticCallee()) {
+						supplies = true
+					}
+				}
+			}
+		}
+		if reads && !supplies {
+			return nil, false
+		}
+		if reads {
+			readers[FnName(fn)] = true
+		}
+	}
+	if len(readers) == 0 {
+		return nil, false
+	}
+	var out []string
+	for f := range readers {
+		out = append(out, f)
+	}
+	sort.Strings(out)
+	return out, true
 }
